@@ -243,9 +243,12 @@ pub fn run(rec: &mut Recorder, w: &mut World, tier: &str, seed: u64) {
                 let ctx = it % 4 == 3 && k.name != "eval";
                 let mut m = model_of(k, eff, with_eft, "", false);
                 if ctx { let b2 = model_of(k, eff, with_eft, "2", rng.chance(1, 2)); m.r.extend(b2.r); m.p.extend(b2.p); m.e.extend(b2.e); m.m.extend(b2.m); rec.count("asked-through:enforce_with_context"); }
+                // now and then the effect column is not the last one: a further column follows it
+                let note = with_eft && rng.chance(1, 5);
+                if note { for pd in m.p.iter_mut() { pd.1.push("note".to_string()); } rec.count("policy-definition:column-after-eft"); }
                 let n = match rng.below(10) { 0 => 0, 1..=3 => 1, 4..=6 => 2, 7 | 8 => 3, _ => 4 + rng.below(27) };
                 let mut rules: Vec<Vec<String>> = vec![];
-                for _ in 0..n { let r = gen_rule(&mut rng, k, with_eft); if !rules.contains(&r) { rules.push(r); } }
+                for _ in 0..n { let mut r = gen_rule(&mut rng, k, with_eft); if note { r.push(rng.pick(&["n1", "allow", "deny", ""]).to_string()); } if !rules.contains(&r) { rules.push(r); } }
                 // occasionally a malformed stored rule (wrong length): must be an error when reached
                 if rng.chance(1, 10) && !rules.is_empty() { let i = rng.below(rules.len()); if rng.chance(1, 2) { rules[i].pop(); } else { rules[i].push("allow".to_string()); } rec.count("policy:malformed-rule"); }
                 let links = gen_links(&mut rng, k);
@@ -286,6 +289,27 @@ pub fn run(rec: &mut Recorder, w: &mut World, tier: &str, seed: u64) {
                 rec.count("universe:unusual-values");
                 for (_, t) in &map { rec.count(&format!("unusual-value:{:?}", t)); }
                 rec.nontrivial_case(&format!("odd|{}|{}|{:?}|{:?}|{:?}", k.name, ename, map, rules, links));
+            }
+        }
+    }
+    // ---- role chains around the hierarchy limit of the enforcer's role manager (10): the decision follows g() as the role
+    //      manager answers it, a chain of exactly / one more / one less than the limit included ----
+    {
+        let rb = ks.iter().find(|k| k.name == "rbac").unwrap().clone();
+        let m = model_of(&rb, E_ALLOW, false, "", false);
+        for len in 7..=13usize {
+            for shortcut in [false, true] {
+                let mut lines: Vec<Vec<String>> = vec![sv(&["p", "p", &format!("u{}", len), "data1", "read"]), sv(&["p", "p", "u3", "data2", "read"])];
+                for i in 0..len { lines.push(sv(&["g", "g", &format!("u{}", i), &format!("u{}", i + 1)])); }
+                if shortcut { lines.push(sv(&["g", "g", "u1", "u4"])); }
+                rec.begin();
+                if new_enforcer(rec, w, &m, "memory", &lines, "", false) != "ok" { rec.count("new:failed"); continue; }
+                let mut reqs: Vec<Vec<String>> = vec![];
+                for i in 0..=len { for o in ["data1", "data2"] { reqs.push(vec![sval(&format!("u{}", i)), sval(o), sval("read")]); } }
+                let out = rec.exec(w, &format!("e.enfs\t{}", enc_reqs(&reqs)));
+                tally(rec, &out);
+                rec.count("kind:rbac-deep-chain");
+                rec.nontrivial_case(&format!("chain|{}|{}", len, shortcut));
             }
         }
     }
